@@ -64,6 +64,13 @@ package client
 //@ func (ci *index) clashesSubnet(c *Persistent) (p *Persistent, s netip.Prefix)
 //@   trusted
 //@   modifies nothing
+// (its scan of the sorted subnet map is under contract: the walk goes on until the very prefix is met - it may not stop
+// early on some ordering argument, the equal prefix can sit anywhere among the prefixes of its length)
+//@ func (ci *index) clashesSubnet$1(p netip.Prefix, uid UID) (cont bool)
+//@   property C04
+//@   ensures walks-until-found: cont == (s != p)
+//@   ensures found-recorded: !cont ==> ok && existing == uid
+//@   modifies *
 //@ func (ci *index) clashesMAC(c *Persistent) (p *Persistent, mac net.HardwareAddr)
 //@   trusted
 //@   modifies nothing
@@ -152,6 +159,18 @@ package client
 //@   requires s.index != nil && wfRefs(s.index) && mapsOK(s.index)
 //@   callsite (*github.com/AdguardTeam/AdGuardHome/internal/client.index).remove(ci, c) requires checked-first: clashOK[p]
 //@   callsite (*github.com/AdguardTeam/AdGuardHome/internal/client.index).add(ci, c) requires checked-first: c == p && clashOK[p]
+//@   modifies *
+
+// looseFound / looseIgnoreLog: the answer of the most recent FindLoose (the lookup the query log's client finder uses) and
+// the ignore-in-query-log flag of the client it found.
+//@ ghost var looseFound bool
+//@ ghost var looseIgnoreLog bool
+//@ func (s *Storage) FindLoose(ip netip.Addr, id string) (p *Persistent, ok bool)
+//@   callsites-only
+//@   requires !held(s.mu)
+//@   ensures ok ==> p != nil
+//@   ghost at return: looseFound = ok
+//@   ghost at return: looseIgnoreLog = (ok && p.IgnoreQueryLog)
 //@   modifies *
 
 // Precedence ClientID > exact address (> subnet, inside findByIP) > MAC of the DHCP lease; own settings only on opt-out.
